@@ -27,7 +27,7 @@ def specs_index(tier):
     t = 60000 if tier == "thorough" else 10000
     s = [(SI_, "unit_check_finite", {"timeout_ms": t}), (SI_, "unit_check_finite", {"timeout_ms": t, "canary": True}),
          (SI_, "unit_check_number_perturbations", {"timeout_ms": t}), (SI_, "unit_contains_pop", {"timeout_ms": t}),
-         (SI_, "unit_sentinels", {"timeout_ms": t})]
+         (SI_, "unit_sentinels", {"timeout_ms": t}), (SI_, "unit_series_init", {"timeout_ms": t})]
     s += [(SI_, "unit_getitem", {"nfin": f, "ninf": i, "timeout_ms": t}) for f, i in getitem_grid(tier)]
     views = [(("int",), 1), (("npint", "int"), 2), (("slice",), 1), (("list", "int"), 1), (("list", "list"), 2), (("int", "slice"), 1), (("npint", "list"), 1)]
     if tier == "thorough":
@@ -187,4 +187,7 @@ def specs_nof(tier):
             s.append(("contracts.nof_wrappers", "unit_wrapper", {"method": m, "other_kind": k, "timeout_ms": t}))
     for nt, nm in ((0, 2), (1, 1), (2, 3), (3, 2)):
         s.append(("contracts.nof_wrappers", "unit_is_particle_conserving", {"nterms": nt, "nmodes": nm, "timeout_ms": t}))
+    # conversion back: the word handed to sympy is the word the other contracts take as the meaning of a term
+    for no, nt in ((0, 0), (1, 1), (2, 2), (3, 1), (2, 0)) + (((4, 1), (3, 2)) if tier == "thorough" else ()):
+        s.append(("contracts.nof_wrappers", "unit_as_expr", {"nops": no, "nterms": nt, "timeout_ms": t}))
     return s
